@@ -86,6 +86,15 @@ class HarnessError(Exception):
     pass
 
 
+# VERIF_THOROUGH_SCALE (default 1): scales the *volume* of the thorough tier only (e.g. 0.01 = a smoke run that walks every
+# thorough-only code path in minutes).  It never changes the quick tier.
+TSCALE = float(os.environ.get("VERIF_THOROUGH_SCALE", "1"))
+
+
+def T(n):
+    return max(1, int(n * TSCALE))
+
+
 class Ctx:
     def __init__(self, verif):
         self.verif = verif
@@ -574,7 +583,7 @@ def c12_alloc_faults(ctx, vd, binary, scratch, quick):
 def check_C12(ctx, tier, seed):
     vd = Verdict(ctx, "C12", tier, seed, "exploration")
     b = build(ctx, "default")
-    n = 200_000 if tier == "quick" else 6_000_000
+    n = 200_000 if tier == "quick" else T(6_000_000)
     scratch = os.path.join(ctx.build_root, "default", "files")
     os.makedirs(scratch, exist_ok=True)
     # one REAL file beyond the generator's limit in every run (sparse: costs no disk), overlapped with the batch
@@ -623,7 +632,7 @@ def check_C12(ctx, tier, seed):
 def check_C03(ctx, tier, seed):
     vd = Verdict(ctx, "C03", tier, seed, "exploration")
     b = build(ctx, "default")
-    n = 300_000 if tier == "quick" else 10_000_000
+    n = 300_000 if tier == "quick" else T(10_000_000)
     # one REAL input above 1 GiB in every run (overlapped with the batch): a single update() call vs the same bytes in pieces
     import random
     rnd = random.Random(seed)
@@ -809,13 +818,13 @@ def check_C07(ctx, tier, seed):
     degraded = []
     # (a) simulated-CPU sweep
     if hooked_bin:
-        sim_batch_procs(ctx, vd, "hooked", hooked_bin, "c07cpu", 60_000 if quick else 6_000_000)
+        sim_batch_procs(ctx, vd, "hooked", hooked_bin, "c07cpu", 60_000 if quick else T(6_000_000))
     else:
         degraded.append("(a) simulated-CPU sweep skipped: the hooked build (--cfg fast_tlsh_verif) does not compile on this tree")
     # (b) first-call races under shuttle (random + PCT)
     if shuttle_bin:
         # many processes: state that bypasses the resettable once-cell is only "first" once per process
-        shuttle_runs(ctx, vd, shuttle_bin, 1_000 if quick else 50_000, 4 * NCPU)
+        shuttle_runs(ctx, vd, shuttle_bin, 1_000 if quick else T(50_000), 4 * NCPU)
     else:
         degraded.append("(b) shuttle races skipped: the shuttle build does not compile on this tree")
     # states and streams only multi-GiB inputs produce, in two more configurations: the jump histories (model as oracle) on the
@@ -824,13 +833,13 @@ def check_C07(ctx, tier, seed):
     side = ThreadPoolExecutor(max_workers=1)
     big = side.submit(lambda: run_sim(ctx, bins["m_unsafe"], ["bigstream", "--variant", seed % 5, "--pattern", "00", "--seed", 1, "--single-slice", (1 << 32) + 1000])[1])
     if hl:
-        sim_batch_procs(ctx, vd, "hooked_lowmem", hl, "c11", 15_000 if quick else 300_000)
+        sim_batch_procs(ctx, vd, "hooked_lowmem", hl, "c11", 15_000 if quick else T(300_000))
     vd.add("m_unsafe", big.result())
     if degraded:
         vd.extra["DEGRADED"] = degraded
         print("NOTE: C07 ran with reduced coverage: %s" % "; ".join(degraded), flush=True)
     # (d) build matrix
-    matrix_compare(ctx, vd, matrix_keys, 20_000 if quick else 400_000)
+    matrix_compare(ctx, vd, matrix_keys, 20_000 if quick else T(400_000))
     # swarm over build knobs: seeded random subsets of the optimisation-only features (x a random static tier), rebuilt
     # for every run -- the fixed matrix above cannot contain every combination
     import random
@@ -845,7 +854,7 @@ def check_C07(ctx, tier, seed):
         if rnd.random() < 0.34:
             CONFIGS[k]["profile"] = {"opt-level": rnd.choice([0, 1, 2, "\"s\""]), "debug-assertions": rnd.choice(["true", "false"]), "overflow-checks": "true"}
         extra.append(k)
-    matrix_compare(ctx, vd, ["m_plain"] + extra, 20_000 if quick else 200_000)
+    matrix_compare(ctx, vd, ["m_plain"] + extra, 20_000 if quick else T(200_000))
     vd.extra["random_feature_sets"] = {k: {"features": CONFIGS[k]["tlsh"], "rustflags": CONFIGS[k]["rustflags"]} for k in extra}
     for k in extra:
         shutil.rmtree(os.path.join(ctx.build_root, k), ignore_errors=True)
@@ -940,10 +949,10 @@ def check_C18(ctx, tier, seed):
     quick = tier == "quick"
     bins = build_many(ctx, ALLOC_CONFIGS)
     for cfg in ALLOC_CONFIGS:
-        alloc_world(ctx, vd, cfg, bins[cfg], 48 if quick else 512, 1500 if quick else 20000, hard=False)
-        alloc_world(ctx, vd, cfg, bins[cfg], 16 if quick else 128, 1500 if quick else 20000, hard=True)
+        alloc_world(ctx, vd, cfg, bins[cfg], 48 if quick else 512, 1500 if quick else T(20000), hard=False)
+        alloc_world(ctx, vd, cfg, bins[cfg], 16 if quick else 128, 1500 if quick else T(20000), hard=True)
         # several real threads of one process inside the core operations at the same time (contended process-wide state)
-        sim_batch_procs(ctx, vd, cfg, bins[cfg], "c18mt", 16000 if quick else 640000, procs=8)
+        sim_batch_procs(ctx, vd, cfg, bins[cfg], "c18mt", 16000 if quick else T(640000), procs=8)
     nostd_builds(ctx, vd, NOSTD_FEATURE_SETS if not quick else NOSTD_FEATURE_SETS[:12])
     vd.extra["grid"] = "states = (variant, op kind [14], first call of that kind in the run?) -> 5 x 19 x 2 = 190 cells per build; see distinct_states"
     vd.extra["components_real"] = ["every core operation of fast-tlsh (new/update/finalize/processed_len/clone/from_str_bytes/TryFrom/store_*/compare/max_distance/clear_checksum/accessors/quartile), incl. first (dispatch-initialising) calls in fresh processes and on fresh threads"]
@@ -1011,7 +1020,7 @@ def check_C17(ctx, tier, seed):
     native = ["dbg", "dbg_unsafe", "rel_unsafe", "dbg_plain"] + ([] if quick else ["asan", "asan_unsafe"])
     bins = build_many(ctx, native + ["default"])
     scen = [("c17api", 60_000), ("c17reader", 40_000), ("c03", 20_000), ("c12", 20_000), ("c11small", 10_000)]
-    mult = 1 if quick else 40
+    mult = 1 if quick else max(1, T(40))
     for cfg in native:
         env = None
         if cfg.startswith("asan"):
@@ -1089,16 +1098,16 @@ def check_C17(ctx, tier, seed):
     pairs.append(("miri_unsafe_lowmem", "c17api"))
     # all (configuration, scenario) pairs run concurrently, 3 interpreter processes each in the quick tier
     procs = 3 if quick else 4
-    per = 32 if quick else 128
+    per = 32 if quick else max(8, T(128))
     with ThreadPoolExecutor(max_workers=(len(pairs) + 1) if quick else 4) as ex:
         # first calls of two or three threads racing on the build with feature `unsafe` (data races on lazily built state
         # are invisible natively: only the interpreter's race detector sees them)
-        race = ex.submit(lambda: miri_race(ctx, vd, "miri_unsafe_sse2", [seed] if quick else [seed + i for i in range(4)], 16 if quick else 64, fresh=True))
+        race = ex.submit(lambda: miri_race(ctx, vd, "miri_unsafe_sse2", [seed] if quick else [seed + i for i in range(4)], 16 if quick else max(8, T(64)), fresh=True))
         list(ex.map(lambda cs: miri_batches(ctx, vd, cs[0], cs[1], per * procs, procs), pairs))
         race.result()
     if not quick:
-        miri_batches(ctx, vd, "miri_unsafe_serde", "c16", 800, 8)
-        miri_batches(ctx, vd, "miri_unsafe_serde", "c16mock", 800, 8)
+        miri_batches(ctx, vd, "miri_unsafe_serde", "c16", max(16, T(800)), 8)
+        miri_batches(ctx, vd, "miri_unsafe_serde", "c16mock", max(16, T(800)), 8)
     vd.extra["engines"] = {"native debug-assertions+overflow-checks": [c for c in native if c.startswith("dbg")], "native release with feature unsafe": ["rel_unsafe"],
                            "AddressSanitizer": [c for c in native if c.startswith("asan")], "Miri": miri_cfgs,
                            "unsafe-feature transcript == safe transcript": "checked by C07 (d), builds m_unsafe vs m_plain"}
@@ -1140,7 +1149,7 @@ def check_C11(ctx, tier, seed):
     if not hb or not hdb:
         return check_C11_unhooked(ctx, vd, tier, seed)
     bins = {"hooked": hb, "hooked_dbg": hdb}
-    n = 60_000 if tier == "quick" else 1_000_000
+    n = 60_000 if tier == "quick" else T(1_000_000)
     # one REAL stream in every run, started first so that it overlaps with the batches: a single update() call with a
     # slice longer than u32::MAX (a lazily mapped zero buffer) -- the only way to reach the length conversion of one huge piece
     side = ThreadPoolExecutor(max_workers=4)
@@ -1204,7 +1213,7 @@ SERDE_CONFIGS = ["serde", "serde_strict", "serde_buf", "serde_buf_strict", "serd
 def check_C16(ctx, tier, seed):
     vd = Verdict(ctx, "C16", tier, seed, "exploration")
     bins = build_many(ctx, SERDE_CONFIGS)
-    n = 400_000 if tier == "quick" else 10_000_000
+    n = 400_000 if tier == "quick" else T(10_000_000)
     per = max(2, NCPU // len(SERDE_CONFIGS))
     def one(cfg):
         sim_batch(ctx, vd, cfg, bins[cfg], "c16", n, threads=per, abort_fallback=True)
